@@ -52,24 +52,29 @@ Theorem C12_retry_converges_reload_queue : forall e dn, shard_range e -> inline 
 Proof. exact retry_converges_reload_queue. Qed.
 Print Assumptions C12_retry_converges_reload_queue.
 
-(* crash points: a restarted controller (new instance, full sync) converges when no shard
-   file of the directory holds a backend (a directory that does not outlive the controller,
-   or no sharding) ... *)
-Theorem C12_restart_converges_under_no_stale_shard : forall e dn, shard_range e ->
-  forall s, no_high_shards e (i_disk s) -> no_shard_content (i_disk s) ->
-  forall l fs s', wf_batch e dn (i_cfg (restart s)) l -> step_f e fs (restart s) l = (s', false) ->
-    disk_ok e (i_cfg s') (i_disk s').
-Proof. exact restart_converges_under_no_stale_shard. Qed.
-Print Assumptions C12_restart_converges_under_no_stale_shard.
+(* crash points: a crash at any point of an update, or a restart, gives a new instance over
+   whatever the directory holds (files of an interrupted update, shard files of backends that
+   are gone, files of shards beyond a smaller shard count); the reconciliations that follow
+   converge: an update that reports success leaves exactly the current state *)
+Theorem C12_restart_converges : forall e dn, shard_range e ->
+  forall s l fs s', wf_batch e dn (i_cfg (restart s)) l -> step_f e fs (restart s) l = (s', false) ->
+    disk_ok e (i_cfg s') (i_disk s') /\
+    (inline e = true -> exists r, i_running s' = Some r /\ disk_ok e (i_cfg s') r).
+Proof. exact restart_converges. Qed.
+Print Assumptions C12_restart_converges.
 
-(* ... and the full statement is false: over a directory that survives the restart, a shard
-   file whose backends are all gone is never rewritten *)
-Theorem C12_restart_converges_refuted :
-  exists e dn h l,
-    shard_range e /\ wf_hist e dn inst_empty h /\
-    wf_batch e dn (i_cfg (restart (run_f e inst_empty h))) l /\
-    snd (step e (restart (run_f e inst_empty h)) l) = false /\
-    ~ disk_ok e (i_cfg (fst (step e (restart (run_f e inst_empty h)) l)))
-                (i_disk (fst (step e (restart (run_f e inst_empty h)) l))).
-Proof. exact restart_converges_refuted. Qed.
-Print Assumptions C12_restart_converges_refuted.
+Theorem C12_restart_then_history : forall e dn, shard_range e ->
+  forall s h, wf_hist e dn (restart s) h ->
+  forall l fs s', wf_batch e dn (i_cfg (run_f e (restart s) h)) l ->
+    step_f e fs (run_f e (restart s) h) l = (s', false) ->
+    disk_ok e (i_cfg s') (i_disk s').
+Proof. exact restart_then_history. Qed.
+Print Assumptions C12_restart_then_history.
+
+(* the hypotheses are satisfiable, and the witness of the defect repaired by 7d37a3e (two
+   shards; backend 1 alone in shard 1; restart; the cluster only has backend 0): the restarted
+   instance removes the stale haproxy5-backend001.cfg *)
+Theorem C12_restart_witness :
+  disk_ok w_env (i_cfg w_s2) (i_disk w_s2) /\ d_shard (i_disk w_s2) 1 = None /\ d_shard (i_disk w_s1) 1 <> None.
+Proof. exact restart_witness_converges. Qed.
+Print Assumptions C12_restart_witness.
